@@ -282,7 +282,7 @@ META = dict(
         "through the solver over the alphabet, so every token assignment within the bound is a path); asserted per path: the printed total equals the Levenshtein "
         "edits after --replace-then---ignore filtering divided by the filtered reference length (per-utterance figures with --per-utt, C02's 0/1 convention for an "
         "empty reference, mean distance with --distances), identically for every --batch-size."),
-    bounds=dict(error_rates="quick: 2 utterances, refs/hyps <= 2 tokens over <= 3 ids, batch sizes {1,2,100}, one ignore / one replace list; thorough: 3 utterances, <= 3 tokens",
+    bounds=dict(error_rates="quick: 2 utterances, refs/hyps <= 2 tokens over <= 3 ids, batch sizes {1,2,100}, one ignore / one replace list; thorough: up to 3 utterances, <= 3 tokens",
                 quick="2 utterances of <= 4 frames over 3 labels; file prefix/suffix in {default, 'p_'/'.pt', ''/''}; an unrelated file present",
                 thorough="3 utterances of <= 5 frames over 3 labels; same prefix/suffix grid"),
     assumptions=["files on disk are placeholders; tensor content lives in an in-memory store behind torch.load/torch.save", "single-process mode only",
@@ -308,7 +308,7 @@ def tasks(tier):
     ts.append(task(PROP, M_, "ErrorRateCmdH", R=[2, 2], H=[1, 1], toks=[0, 1, 2], batch_sizes=[2, 1], ignore=[2], replace=[(1, 2)], distances=True, nvalidate=1))
     if not q:
         ts.append(task(PROP, M_, "ErrorRateCmdH", R=[2, 1, 1], H=[1, 2, 1], toks=[0, 1], batch_sizes=[1, 2, 3], nvalidate=1))
-        ts.append(task(PROP, M_, "ErrorRateCmdH", R=[3, 1], H=[2, 2], toks=[0, 1, 2], batch_sizes=[1, 2], ignore=[0], replace=[(2, 0)], nvalidate=1))
+        ts.append(task(PROP, M_, "ErrorRateCmdH", R=[2, 1], H=[2, 2], toks=[0, 1, 2], batch_sizes=[1, 2], ignore=[0], replace=[(2, 0)], nvalidate=1))
         ts.append(task(PROP, M_, "ErrorRateCmdH", R=[2, 2], H=[3, 0], toks=[0, 1], batch_sizes=[1, 2], per_utt=True, distances=True, nvalidate=1))
         ts.append(task(PROP, M_, "ErrorRateCmdH", R=[2, 1], H=[2, 1], toks=[0, 1, 2], batch_sizes=[1, 100], ignore=[2], per_utt=True, nvalidate=1))
         ts.append(task(PROP, M_, "ErrorRateCmdH", R=[2, 2], H=[1, 1], toks=[0, 1, 2], batch_sizes=[2, 1], replace=[(2, 1)], distances=True, nvalidate=1))
